@@ -11,3 +11,13 @@ pub use node_storage::*;
 pub(crate) use resource_node::*;
 pub(crate) use stat_prepare_slot::*;
 pub(crate) use stat_slot::*;
+
+/// Verification hook (only with `--cfg sentinel_verif`): public view of the
+/// crate-private statistic types and default slots.
+#[cfg(sentinel_verif)]
+pub mod verif_export {
+    pub use super::base::verif_export::*;
+    pub use super::resource_node::*;
+    pub use super::stat_prepare_slot::*;
+    pub use super::stat_slot::*;
+}
